@@ -45,7 +45,7 @@ def run(F, R, ctx):
     R.rule("C20.b", "every RegisterFn wrapper closure and native primitive tests args.len() before a constant index into "
                     "args (same matcher as C07.c)")
     R.rule("C20.c", "OpaqueReferenceNursery::allocate_{rw,ro}_object is called only by Engine/LifetimeGuard::"
-                    "with_{mut,immutable}_reference; LifetimeGuard counts each allocation and its Drop calls free_n; "
+                    "with_{mut,immutable}_reference; LifetimeGuard counts each allocation and its Drop hands the count to the nursery's release routine; "
                     "NurseryAccessToken's Drop frees all")
     n = 0
     convs = [fn for nme, fn in F.fns.items() if nme.startswith("steel::") and (CONV.search(nme) or "::register_fn::" in nme or
@@ -189,14 +189,21 @@ def run(F, R, ctx):
                        "%s no longer constructs the LifetimeGuard that revokes the lent reference" % lib.short_name(c), fn.loc(), sample=True)
     lg = F.adt("LifetimeGuard")
     d = F.fns.get(lg.get("drop") or "")
-    R.inst("C20.c", "LifetimeGuard::drop frees what was counted", d is not None and bool(d.call_blocks(r"OpaqueReferenceNursery\}::free_n$", wrappers=True))
+    rel = []
+    if d is not None:
+        for _, cb_ in lib.deep_calls(F, d, depth=2):
+            f_ = F.fns.get(cb_["callee"])
+            if f_ is not None and "{impl OpaqueReferenceNursery}" in f_.name and f_ not in rel and \
+                    any(e[1] == "OpaqueReferenceNursery" for _, e in lib.family_events(F, f_, "fld")):
+                rel.append(f_)
+    R.inst("C20.c", "LifetimeGuard::drop frees what was counted", d is not None and bool(rel)
            and any(e[1] == "LifetimeGuard" and e[2] == "count" for _, _, e in d.events("fld")),
-           "LifetimeGuard has no destructor calling OpaqueReferenceNursery::free_n(self.count): lent references stay "
+           "LifetimeGuard has no destructor handing its count to a release routine of OpaqueReferenceNursery: lent references stay "
            "reachable from scripts after the scope ends", "%s:%s" % (lg["file"], lg["line"]), sample=True)
-    fr = F.one(r"\{impl OpaqueReferenceNursery\}::free_n$")
-    flds = set(e[2] for _, e in lib.family_events(F, fr, "fld") if e[1] == "OpaqueReferenceNursery")
-    pops = [(c_, b_) for c_ in [fr] + [F.fns[e[1]] for _, _, e in fr.events("closure") if e[1] in F.fns]
-            for _, b_ in c_.calls() if re.search(r"Vec<T,A>\}::pop$", b_["callee"])]
+    flds = set(e[2] for f_ in rel for _, e in lib.family_events(F, f_, "fld") if e[1] == "OpaqueReferenceNursery")
+    fams = [c_ for f_ in rel for c_ in [f_] + [F.fns[e[1]] for _, _, e in f_.events("closure") if e[1] in F.fns]]
+    removals = [(c_, b_) for c_ in fams for _, b_ in c_.calls() if re.search(r"Vec<T,A>\}::(pop|truncate|clear|drain)$", b_["callee"])]
+    pops = [(c_, b_) for c_, b_ in removals if b_["callee"].endswith("::pop")]
     cond = False
     for c_, b_ in pops:
         d_ = re.match(r"_\d+", b_.get("dest") or "")
@@ -208,12 +215,13 @@ def run(F, R, ctx):
                 loc_ = re.match(r"_\d+", blk.get("place", "").strip("(*)"))
                 if loc_ and loc_.group(0) in t_:
                     cond = True
-    R.inst("C20.c", "OpaqueReferenceNursery::free_n releases both tables unconditionally",
-           {"memory", "weak_values"} <= flds and len(pops) >= 2 and not cond,
-           "OpaqueReferenceNursery::free_n no longer pops `count` entries from both the rooted-pointer table and the weak-value "
-           "table unconditionally (a control decision depends on what a pop returned, or a table is not popped): after the "
+    R.inst("C20.c", "the guard's release routine releases both tables unconditionally",
+           {"memory", "weak_values"} <= flds and len(removals) >= 2 and not cond,
+           "the release routine of the lending guard no longer removes entries from both the rooted-pointer table and the weak-value "
+           "table unconditionally (a control decision depends on what a pop returned, or a table is not shrunk): after the "
            "scope ends a lent reference can stay registered, so a script can still reach a host object that is gone",
-           fr.loc(), sample={"tables": sorted(flds), "pops": len(pops), "pop_result_decides_control": cond})
+           rel[0].loc() if rel else "", sample={"release": [f_.short() for f_ in rel], "tables": sorted(flds),
+                                              "removals": len(removals), "pop_result_decides_control": cond})
     for ty in ("LifetimeGuard",):
         cl = [im for im in F.impls if im["self"].split("<")[0] == ty and im["trait"] and re.search(r"::(Clone|Copy)$", im["trait"])]
         R.inst("C20.c", "%s is not Clone/Copy" % ty, not cl, "%s can be duplicated: the first copy's drop revokes references "
@@ -225,6 +233,7 @@ def run(F, R, ctx):
     roundtrip_rule(F, R)
     tuple_arity_rule(F, R)
     release_token_rule(F, R)
+    lent_release_rule(F, R)
 
 
 # ---------------------------------------------------------------------------------------------------------------------
@@ -389,3 +398,64 @@ def release_token_rule(F, R):
                           "original lent object while both derived references are alive" % (
                               sites[0][0].short(), T, sites[0][1].get("line"))),
                sites[0][0].loc(sites[0][1].get("line")) if sites else "", sample=True)
+
+
+def lent_release_rule(F, R):
+    R.rule("C20.n", "the end of a lending call releases the owner of every reference created during it: the release reached from "
+                    "<LifetimeGuard as Drop>::drop shrinks OpaqueReferenceNursery.weak_values to a recorded length or clears it "
+                    "(truncate / clear / drain) — or, if it pops a counted number of entries, every function that pushes onto "
+                    "weak_values is called only where the guard's count is written. Owners of references a script derives from a lent "
+                    "object (OpaqueReferenceNursery::allocate) are pushed onto the same stack and are not counted: an owner left "
+                    "behind keeps its reference usable after the call has ended")
+    drops = F.find(r"\{impl Drop for LifetimeGuard(<[^{}]*>)?\}::drop$")
+    if not drops:
+        raise CheckError("anchor lost: Drop for LifetimeGuard")
+
+    def touches_weak(fn):
+        return any(e[1] == "OpaqueReferenceNursery" and e[2] == "weak_values" for _, e in lib.family_events(F, fn, "fld"))
+    rel = []
+    for d in drops:
+        for _, cb in lib.deep_calls(F, d, depth=2):
+            f = F.fns.get(cb["callee"])
+            if f is not None and touches_weak(f) and f not in rel:
+                rel.append(f)
+    if not rel:
+        R.inst("C20.n", "LifetimeGuard::drop releases the nursery's weak_values", False,
+               "<LifetimeGuard as Drop>::drop no longer reaches a function that removes entries of OpaqueReferenceNursery.weak_values: "
+               "the owners of lent and derived references outlive the lending call", drops[0].loc())
+        return
+    how = set()
+    for f in rel:
+        for _, cb in lib.family_calls(F, f):
+            m = re.search(r"Vec<T,A>\}::(pop|truncate|clear|drain)$", cb["callee"])
+            if m:
+                how.add(m.group(1))
+    whole = bool(how & {"truncate", "clear", "drain"})
+    pushers = []
+    for n, f in F.fns.items():
+        if n.startswith("steel::gc::") and f.d["kind"] != "Closure" and touches_weak(f) and \
+                any(re.search(r"Vec<T,A>\}::push$", cb["callee"]) for _, cb in lib.family_calls(F, f)):
+            pushers.append(f)
+    R.floor("C20.n", "functions pushing onto OpaqueReferenceNursery.weak_values", len(pushers), 3)
+    if whole:
+        R.inst("C20.n", "the release does not depend on a count of lent objects", True,
+               sample={"release": [f.short() for f in rel], "removal": sorted(how), "pushers": [f.short() for f in pushers]})
+        return
+    for p in sorted(pushers, key=lambda f: f.name):
+        bad = None
+        for n, g in F.fns.items():
+            if not n.startswith("steel::") or g is p:
+                continue
+            if any(cb["callee"] == p.name for _, cb in lib.family_calls(F, g)):
+                counted = any(e[1] == "LifetimeGuard" and (e[0] == "agg" or (e[0] == "fld" and e[2] == "count" and e[3] in ("w", "m")))
+                              for _, e in lib.family_events(F, g) if e[0] in ("agg", "fld") and len(e) > 3)
+                if not counted:
+                    bad = g
+                    break
+        R.inst("C20.n", "%s pushes only what the guard counts" % p.short(), bad is None,
+               bad and ("the release at the end of a lending call (%s) pops as many entries of OpaqueReferenceNursery.weak_values as the "
+                        "guard lent objects, but %s — called by %s, which does not touch the guard's count — pushes onto the same "
+                        "stack: of two references derived during one call (`room`, then `chest`) the owner of the first stays behind, "
+                        "and (room-name room) still answers after the call returned, even after the host dropped the object" % (
+                            ", ".join(f.short() for f in rel), p.short(), bad.short())),
+               p.loc(), sample=True)
